@@ -97,14 +97,22 @@ impl SerdeParser {
         // rename_all); the masked copy keeps the byte offsets of the original text
         let masked = super::validator_parser::mask_string_literals(tokens);
         let is_ident = |c: char| c.is_alphanumeric() || c == '_';
-        // The item must be `rename_all` itself, not a longer name such as `rename_all_fields`
-        let start = masked
+        // The item must be `rename_all` itself, not a longer name such as `rename_all_fields`; the
+        // two directions may be given by two items: rename_all(deserialize = ".."),
+        // rename_all(serialize = "..")
+        masked
             .match_indices("rename_all")
             .map(|(pos, _)| pos)
-            .find(|pos| {
+            .filter(|pos| {
                 !masked[..*pos].ends_with(is_ident)
                     && !masked[pos + "rename_all".len()..].starts_with(is_ident)
-            })?;
+            })
+            .find_map(|start| Self::rename_all_value_at(tokens, &masked, start))
+    }
+
+    /// The rule named by the `rename_all` item at `start`, if it names one for serialisation
+    fn rename_all_value_at(tokens: &str, masked: &str, start: usize) -> Option<RenameRule> {
+        let is_ident = |c: char| c.is_alphanumeric() || c == '_';
         let after_name = masked[start + "rename_all".len()..].trim_start();
         // rename_all(serialize = "..", deserialize = ".."): the bindings describe what serde
         // writes, so the convention is the one of `serialize` (none: names are not changed)
@@ -123,10 +131,9 @@ impl SerdeParser {
             .trim_start()
             .strip_prefix('=')?
             .trim_start();
-        // Extract value from quotes
-        let value = after_eq.strip_prefix('"')?;
-        let value = &value[..value.find('"')?];
-        RenameRule::from_rename_all_str(value).ok()
+        // The value of the literal (a raw string r"camelCase" names the same rule)
+        let value = super::validator_parser::leading_string_literal(after_eq)?;
+        RenameRule::from_rename_all_str(&value).ok()
     }
 
     /// Parse rename value from field attribute
@@ -162,7 +169,8 @@ impl SerdeParser {
                     .find(|p| !masked[..*p].ends_with(|c: char| c.is_alphanumeric() || c == '_'));
                 match serialize {
                     Some(p) => p + "serialize".len(),
-                    None => break,
+                    // rename(deserialize = ".."): another rename item may name the other direction
+                    None => continue,
                 }
             } else {
                 abs_pos + 6
